@@ -26,6 +26,7 @@ type PermNode struct {
 	ACL      *pb.Acl        // the ACL definition of this account/method
 	Status   ValidateStatus // the ACL validation status of this node
 	Children []*PermNode    // the children of this node, usually are ACL members of account/method
+	IsSigner bool           // this node is the last element of a signer uri, the only element whose signature is verified
 }
 
 // NewPermNode return a default PermNode
@@ -121,6 +122,9 @@ func buildPermTree(root *PermNode, aclMgr base.AclManager,
 			newNode := NewPermNode(akname, accountACL)
 			pnode.Children = append(pnode.Children, newNode)
 			pnode = newNode
+		}
+		if pnode != root {
+			pnode.IsSigner = true
 		}
 	}
 	return root, nil
